@@ -198,3 +198,208 @@ Qed.
 
 Lemma get_in_vals {V} k (v : V) m : get k m = Some v -> In v (vals m).
 Proof. intros H. apply get_in in H. unfold vals. now apply (in_map snd) in H. Qed.
+
+(* ---- flush, precisely ----------------------------------------------------------------------------------- *)
+Lemma flush_inst3 th s j :
+  match get j (insts s) with
+  | Some x => exists x', get j (insts (flush th s)) = Some x' /\ nm x' = nm x /\ pc x' = pc x /\ alive x' = alive x /\
+                         exited x' = exited x /\ l_done x' = l_done x /\ (l_runctx x = true -> l_runctx x' = true) /\
+                         (pend (get_thread s th) = Some (REndEarly j) -> l_runctx x' = true)
+  | None => get j (insts (flush th s)) = None
+  end.
+Proof.
+  unfold flush, get_thread. destruct (get th (threads s)) as [t|] eqn:Et.
+  2:{ destruct (get j (insts s)) as [x|]; [exists x; repeat split; auto; discriminate|reflexivity]. }
+  destruct (pend t) as [r|] eqn:Ep.
+  2:{ destruct (get j (insts s)) as [x|]; [exists x; repeat split; auto; discriminate|reflexivity]. }
+  destruct r; unfold apply_release, end_release_early; sup_simpl; cbn;
+  try (destruct (code_set s); cbn);
+  try (destruct (get j (insts s)) as [x|]; [exists x; repeat split; auto; discriminate|reflexivity]).
+  all: destruct (N.eqb_spec i j); destruct (get j (insts s)) as [x|]; cbn; try reflexivity;
+       try (eexists; split; [reflexivity|]; cbn; repeat split; auto; intros HH; injection HH; congruence).
+Qed.
+
+Lemma flush_viss2 th s : viss (flush th s) = viss s. Proof. apply flush_viss. Qed.
+
+Lemma threads_flush th s th' :
+  get th' (threads (flush th s)) =
+  match get th (threads s) with
+  | Some t => match pend t with
+              | Some r => if N.eqb th th' then Some (t <| pend := None |>) else get th' (threads s)
+              | None => get th' (threads s)
+              end
+  | None => get th' (threads s)
+  end.
+Proof.
+  unfold flush. destruct (get th (threads s)) as [t|] eqn:Et; [|reflexivity].
+  destruct (pend t) as [r|] eqn:Ep; [|reflexivity].
+  destruct r; unfold apply_release, end_release_early; sup_simpl; try reflexivity; cbn; try (apply get_set). destruct (code_set s); cbn; apply get_set.
+Qed.
+
+Lemma flush_thread th s th' :
+  let t := get_thread s th' in let t' := get_thread (flush th s) th' in
+  apc t' = apc t /\ spc t' = spc t /\ dpc t' = dpc t /\ pend t' = if N.eqb th th' then None else pend t.
+Proof.
+  cbv zeta. unfold get_thread. rewrite threads_flush.
+  destruct (get th (threads s)) as [t|] eqn:Et.
+  - destruct (pend t) as [r|] eqn:Ep; destruct (N.eqb_spec th th'); subst; rewrite ?Et; cbn; auto.
+  - destruct (N.eqb_spec th th'); subst; rewrite ?Et; cbn; auto.
+Qed.
+
+(* ---- frames for the fields the C03 relation looks at ------------------------------------------------------ *)
+Definition icore_eq (x x' : inst) : Prop :=
+  nm x' = nm x /\ pc x' = pc x /\ alive x' = alive x /\ exited x' = exited x /\ l_done x' = l_done x /\ l_runctx x' = l_runctx x.
+Definition sys_csame (s s' : sys) : Prop :=
+  (forall j, match get j (insts s) with
+             | Some x => exists x', get j (insts s') = Some x' /\ icore_eq x x'
+             | None => get j (insts s') = None end) /\
+  (forall n, match get n (viss s) with
+             | Some v => exists v', get n (viss s') = Some v' /\ st v' = st v
+             | None => get n (viss s') = None end).
+
+Lemma icore_eq_refl x : icore_eq x x. Proof. repeat split. Qed.
+Lemma icore_eq_trans x y z : icore_eq x y -> icore_eq y z -> icore_eq x z.
+Proof. unfold icore_eq. intuition congruence. Qed.
+
+Lemma sys_csame_refl s : sys_csame s s.
+Proof.
+  split; intros k; [destruct (get k (insts s)) as [x|]|destruct (get k (viss s)) as [v|]]; eauto using icore_eq_refl.
+Qed.
+Lemma sys_csame_trans s1 s2 s3 : sys_csame s1 s2 -> sys_csame s2 s3 -> sys_csame s1 s3.
+Proof.
+  intros (C1 & D1) (C2 & D2). split.
+  - intros j. specialize (C1 j). specialize (C2 j). destruct (get j (insts s1)) as [x|].
+    + destruct C1 as (x2 & E2 & L2). rewrite E2 in C2. destruct C2 as (x3 & E3 & L3). exists x3. eauto using icore_eq_trans.
+    + now rewrite C1 in C2.
+  - intros n. specialize (D1 n). specialize (D2 n). destruct (get n (viss s1)) as [v|].
+    + destruct D1 as (v2 & E2 & ?). rewrite E2 in D2. destruct D2 as (v3 & E3 & ?). exists v3. split; congruence.
+    + now rewrite D1 in D2.
+Qed.
+Lemma sys_csame_eq s s' : insts s' = insts s -> viss s' = viss s -> sys_csame s s'.
+Proof. intros C D. unfold sys_csame. rewrite C, D. apply sys_csame_refl. Qed.
+Lemma sys_csame_upd_inst i f s : (forall x, icore_eq x (f x)) -> sys_csame s (upd_inst i f s).
+Proof.
+  intros Hf. split.
+  - intros j. rewrite insts_upd_inst. destruct (N.eqb i j); destruct (get j (insts s)) as [x|]; cbn; eauto using icore_eq_refl.
+  - intros n. rewrite upd_inst_viss. destruct (get n (viss s)) as [v|]; eauto.
+Qed.
+Lemma sys_csame_upd_vis n f s : (forall v, st (f v) = st v) -> sys_csame s (upd_vis n f s).
+Proof.
+  intros Hf. split.
+  - intros j. rewrite upd_vis_insts. destruct (get j (insts s)) as [x|]; eauto using icore_eq_refl.
+  - intros m. rewrite viss_upd_vis. destruct (N.eqb n m); destruct (get m (viss s)) as [v|]; cbn; eauto.
+Qed.
+Lemma sys_csame_fold_upd_inst (f : inst -> inst) l : (forall x, icore_eq x (f x)) ->
+  forall s, sys_csame s (fold_left (fun s i => upd_inst i f s) l s).
+Proof.
+  intros Hf. induction l as [|a l IH]; intros s; cbn; [apply sys_csame_refl|].
+  eapply sys_csame_trans; [apply (sys_csame_upd_inst a f s Hf)|apply IH].
+Qed.
+
+Ltac sys_csame_close :=
+  unfold set_pc, end_release_early, end_finish;
+  repeat first
+  [ apply sys_csame_refl
+  | match goal with
+    | |- sys_csame ?s (upd_inst ?i ?f ?X) =>
+        apply (sys_csame_trans s X); [|apply sys_csame_upd_inst; intros; cbn; repeat split; try reflexivity; destruct_matches; reflexivity]
+    | |- sys_csame ?s (upd_vis ?n ?f ?X) =>
+        apply (sys_csame_trans s X); [|apply sys_csame_upd_vis; intros; cbn; try reflexivity; destruct_matches; reflexivity]
+    | |- sys_csame ?s (fold_left (fun s i => upd_inst i ?f s) ?l ?X) =>
+        apply (sys_csame_trans s X); [|apply sys_csame_fold_upd_inst; intros; cbn; repeat split; reflexivity]
+    | |- sys_csame ?s (set_thread ?th ?t ?X) =>
+        apply (sys_csame_trans s X); [|apply sys_csame_eq; reflexivity]
+    | |- sys_csame ?s (RecordSet.set _ _ ?X) =>
+        apply (sys_csame_trans s X); [|apply sys_csame_eq; reflexivity]
+    | |- sys_csame ?s (if ?b then _ else _) => destruct b
+    | |- sys_csame ?s (match ?b with _ => _ end) => destruct b
+    end ].
+
+(* events that leave (nm, pc, alive, exited, l_done, l_runctx) of every instance, every reported status and
+   (o_alive, o_commit, o_gone) of every observed instance alone *)
+Definition frame_ev (e : event) : bool :=
+  match e with
+  | EResume | EBegin _ | ERegAdd _ _ | ERegDel _ | ERegGet _ _ | EDoneAdd _ | EDoneGet _ _
+  | ESpawn _ _ | EApiBegin _ | EStartChecked _ _ | EStopChecked _ _ | ERestartChecked _ _ | ERestartStopped _
+  | EApiReturn _ | ERunSpawned | ERunReturn _ | ENoRestart _
+  | EStopEnter _ _ | EStopRunning _ | EStopPending _ | ESignal _ _ _ | EStopReturn _
+  | EShutdownCall | EShutdownBegin | EShutdownOrder _ | EShutdownEnd | EShutdownUnlocked
+  | EOrderedGo _ | EOutLine _ _ | ELogReady _ | EProbe _ _ _ => true
+  | _ => false
+  end.
+
+Lemma step_core_csame s th e s' : frame_ev e = true -> step_core s th e = Some s' -> sys_csame s s'.
+Proof.
+  intros Hf H. unfold step_core in H. destruct e; try discriminate Hf; kind_cases H; sys_csame_close.
+Qed.
+
+(* ---- observer-side frame --------------------------------------------------------------------------------- *)
+Definition ocore_eq (x x' : oinst) : Prop :=
+  o_alive x' = o_alive x /\ o_commit x' = o_commit x /\ o_gone x' = o_gone x /\ (o_stopreq x = true -> o_stopreq x' = true).
+Definition obs_csame (o o' : obs) : Prop :=
+  forall j, match get j (oi o) with
+            | Some x => exists x', get j (oi o') = Some x' /\ ocore_eq x x'
+            | None => get j (oi o') = None end.
+Lemma ocore_eq_refl x : ocore_eq x x. Proof. repeat split; auto. Qed.
+Lemma obs_csame_refl o : obs_csame o o.
+Proof. intros j. destruct (get j (oi o)); eauto using ocore_eq_refl. Qed.
+Lemma obs_csame_trans o1 o2 o3 : obs_csame o1 o2 -> obs_csame o2 o3 -> obs_csame o1 o3.
+Proof.
+  intros B1 B2 j. specialize (B1 j). specialize (B2 j). destruct (get j (oi o1)) as [x|].
+  - destruct B1 as (x2 & E2 & L2). rewrite E2 in B2. destruct B2 as (x3 & E3 & L3). exists x3. split; [exact E3|].
+    unfold ocore_eq in *. intuition congruence.
+  - now rewrite B1 in B2.
+Qed.
+Lemma obs_csame_eq o o' : oi o' = oi o -> obs_csame o o'.
+Proof. intros B j. rewrite B. destruct (get j (oi o)); eauto using ocore_eq_refl. Qed.
+Lemma obs_csame_oi_upd i f o : (forall x, ocore_eq x (f x)) -> obs_csame o (oi_upd i f o).
+Proof.
+  intros Hf j. rewrite oi_upd_get. destruct (N.eqb i j); destruct (get j (oi o)) as [x|]; cbn; eauto using ocore_eq_refl.
+Qed.
+Lemma obs_csame_on_upd n f o : obs_csame o (on_upd n f o).
+Proof. apply obs_csame_eq, on_upd_oi. Qed.
+Lemma obs_csame_fold_oi_upd (f : oinst -> oinst) l : (forall x, ocore_eq x (f x)) ->
+  forall o, obs_csame o (fold_left (fun o i => oi_upd i f o) l o).
+Proof.
+  intros Hf. induction l as [|a l IH]; intros o; cbn; [apply obs_csame_refl|].
+  eapply obs_csame_trans; [apply (obs_csame_oi_upd a f o Hf)|apply IH].
+Qed.
+
+Ltac obs_csame_close :=
+  repeat first
+  [ apply obs_csame_refl
+  | match goal with
+    | |- obs_csame ?o (oi_upd ?i ?f ?X) =>
+        apply (obs_csame_trans o X); [|apply obs_csame_oi_upd; intros; cbn; repeat split; cbn; auto using orb_true_l]
+    | |- obs_csame ?o (on_upd ?n ?f ?X) =>
+        apply (obs_csame_trans o X); [|apply obs_csame_on_upd]
+    | |- obs_csame ?o (fold_left (fun o i => oi_upd i ?f o) ?l ?X) =>
+        apply (obs_csame_trans o X); [|apply obs_csame_fold_oi_upd; intros; cbn; repeat split; auto]
+    | |- obs_csame ?o (RecordSet.set _ _ ?X) =>
+        apply (obs_csame_trans o X); [|apply obs_csame_eq; reflexivity]
+    end ].
+
+Lemma obs_pre_csame cs o th e : frame_ev e = true -> obs_csame o (obs_pre cs o (th, e)).
+Proof.
+  intros Hf. unfold obs_pre.
+  destruct e; try discriminate Hf; cbn [fst snd];
+  try (destruct (ev_inst o th _) eqn:Ev);
+  try match goal with |- context[match ?b with true => _ | false => _ end] => destruct b end;
+  try discriminate Hf; unfold note_late_commit;
+  repeat match goal with |- context[if ?b then _ else _] => destruct b end;
+  try apply obs_csame_refl; obs_csame_close.
+  intros ->. reflexivity.
+Qed.
+
+Lemma obs_pre_sd_frame cs o th e : frame_ev e = true -> e <> EShutdownEnd ->
+  o_sd_done (obs_pre cs o (th, e)) = o_sd_done o /\ o_after_sd_spawn (obs_pre cs o (th, e)) = o_after_sd_spawn o.
+Proof.
+  intros Hf Hne. unfold obs_pre.
+  destruct e; try discriminate Hf; try congruence; cbn [fst snd];
+  try (destruct (ev_inst o th _) eqn:Ev);
+  try match goal with |- context[match ?b with true => _ | false => _ end] => destruct b end;
+  unfold note_late_commit;
+  repeat match goal with |- context[if ?b then _ else _] => destruct b end;
+  cbn; autorewrite with obsf; cbn; try (split; reflexivity).
+  all: split; [fold_proj o_sd_done|fold_proj o_after_sd_spawn]; reflexivity.
+Qed.
